@@ -69,6 +69,7 @@ pub fn run(cmd: &str, thorough: bool) -> Option<Report> {
         "c14-content" => c14::run(thorough),
         "c15-cmap" => c15::run(thorough),
         "c16-text" => c16::run(thorough),
+        "c16-strings" => c16::strings(thorough),
         "c17-outline" => c17::run(thorough),
         _ => return None,
     })
@@ -92,7 +93,7 @@ fn replay(v: &serde_json::Value) -> i32 {
         "c13-queries" => c13::replay(r),
         "c14-content" => c14::replay(r),
         "c15-cmap" => c15::replay(r),
-        "c16-text" => c16::replay(r),
+        "c16-text" | "c16-strings" => c16::replay(r),
         "c17-outline" => c17::replay(r),
         _ => { eprintln!("no replay for {}", cmd); return 2; }
     };
